@@ -165,6 +165,10 @@ def route(tokeniser: Any) -> list[Route]:
         new_nlri._packed_stale = True
         flow_nlri = new_nlri
 
+    if not flow_nlri.rules:
+        # `announce flow route` and nothing else installed a rule without any component
+        raise ValueError('flow route: no match component')
+
     error = flow_family_error(flow_nlri.afi, flow_nlri.rules)
     if error:
         raise ValueError(f'flow route: {error}')
